@@ -94,7 +94,8 @@ def register_reporting(R):
 
 def register_outcomes(R):
     # the stock handlers: exactly one outcome event carrying the details dict itself; no raise (they satisfy the Handler shape of runtest)
-    R.contract("testtools.content:text_content", assumed=True, params={"text": "any"}, returns="Content", pure=True, ensures=["not allocated(result)"])
+    if "testtools.content:text_content" not in R.contracts:
+        R.contract("testtools.content:text_content", assumed=True, params={"text": "any"}, returns="Content", pure=True, ensures=["not allocated(result)"])
     for name, meth in (("_report_error", "addError"), ("_report_failure", "addFailure"), ("_report_expected_failure", "addExpectedFailure")):
         R.contract(T_ + name, props=["C05", "C03", "C01"], params={"self": "TestCase", "result": "ExtResult", "err": "any"}, frame_hist=True,
                    modifies=["hist(result)", "self._TestCase__details"],
